@@ -26,8 +26,8 @@
 /* representation invariant of a running context: fewer than one block buffered, whole blocks counted */
 #define SHA256_CTX_WF(c) (__CPROVER_rw_ok((c), sizeof(sha256_ctx)) && (c)->len < SHA256_BLOCK_SIZE && (c)->tot_len % SHA256_BLOCK_SIZE == 0)
 #define U256_SUM      ((g_u64)V_OLD(ctx->len) + (g_u64)len)                 /* |S| */
-#define U256_N        (U256_SUM / SHA256_BLOCK_SIZE)                        /* complete blocks in S */
-#define U256_REM      (U256_SUM % SHA256_BLOCK_SIZE)
+#define U256_N        (U256_SUM >> 6)                                 /* = |S| / 64 (shift: cheaper circuit than a divider) */                        /* complete blocks in S */
+#define U256_REM      (U256_SUM & 63)                                 /* = |S| mod 64 */
 #define U256_OLDBLK   V_OLD(ctx->block[(g_tby_k - g_tb_total * 64) & 63])   /* old buffered byte at the watched offset */
 
 #ifndef VERIF_SHA_MACROS_ONLY
@@ -80,8 +80,8 @@ V_ENSURES(digest[g_k1 & 31] == (unsigned char)(ctx->h[(g_k1 & 31) >> 2] >> (8 * 
 /* representation invariant of a running context: fewer than one block buffered, whole blocks counted */
 #define SHA512_CTX_WF(c) (__CPROVER_rw_ok((c), sizeof(sha512_ctx)) && (c)->len < SHA512_BLOCK_SIZE && (c)->tot_len % SHA512_BLOCK_SIZE == 0)
 #define U512_SUM      ((g_u64)V_OLD(ctx->len) + (g_u64)len)                 /* |S| */
-#define U512_N        (U512_SUM / SHA512_BLOCK_SIZE)                        /* complete blocks in S */
-#define U512_REM      (U512_SUM % SHA512_BLOCK_SIZE)
+#define U512_N        (U512_SUM >> 7)                                 /* = |S| / 128 */                        /* complete blocks in S */
+#define U512_REM      (U512_SUM & 127)                                /* = |S| mod 128 */
 #define U512_OLDBLK   V_OLD(ctx->block[(g_tby_k - g_tb_total * 128) & 127])   /* old buffered byte at the watched offset */
 
 #ifndef VERIF_SHA_MACROS_ONLY
@@ -137,8 +137,8 @@ V_ENSURES(digest[g_k1 & 63] == (unsigned char)(ctx->h[(g_k1 & 63) >> 3] >> (8 * 
 #define SHA1_BITS_OLD(c) ((((g_u64)V_OLD((c)->count[1])) << 32) | (g_u64)V_OLD((c)->count[0]))
 #define U1_J          ((g_u64)((V_OLD(context->count[0]) >> 3) & 63))       /* buffered bytes before the call */
 #define U1_SUM        (U1_J + (g_u64)len)
-#define U1_N          (U1_SUM / 64)
-#define U1_REM        (U1_SUM % 64)
+#define U1_N          (U1_SUM >> 6)
+#define U1_REM        (U1_SUM & 63)
 #define U1_OLDBUF     ((unsigned char)V_OLD(context->buffer[(g_tby_k - g_tb_total * 64) & 63]))
 
 #ifndef VERIF_SHA_MACROS_ONLY
